@@ -5,6 +5,7 @@
 package robust
 
 import (
+	"compress/gzip"
 	"regexp"
 	"bytes"
 	"encoding/base64"
@@ -110,6 +111,7 @@ type Result struct {
 	Code    int
 	Body    []byte
 	CT      string
+	CL      string // the Content-Length header the handler set ("" = none)
 	Panic   string
 	Hung    bool
 	Elapsed time.Duration
@@ -144,6 +146,7 @@ func (e *GcsEnv) Do(r Req) Result {
 		res.Code = rec.Code
 		res.Body = rec.Body.Bytes()
 		res.CT = rec.Header().Get("Content-Type")
+		res.CL = rec.Header().Get("Content-Length")
 	}()
 	select {
 	case res := <-done:
@@ -174,6 +177,11 @@ func wellFormed(r Req, res Result) string {
 		if v.Error.Code != res.Code {
 			return fmt.Sprintf("status %d but the error body says code %d", res.Code, v.Error.Code)
 		}
+	}
+	// A declared length is a promise about the bytes that follow: on a real connection net/http cuts the
+	// body or the client sees "unexpected EOF" when they disagree (a recorder just keeps both).
+	if res.CL != "" && r.Method != "HEAD" && res.CL != fmt.Sprint(len(res.Body)) {
+		return fmt.Sprintf("Content-Length says %s but the body has %d bytes", res.CL, len(res.Body))
 	}
 	if res.Code >= 400 && len(bytes.TrimSpace(res.Body)) == 0 && r.Method != "HEAD" {
 		return fmt.Sprintf("status %d with an empty body", res.Code)
@@ -235,6 +243,13 @@ func (e *GcsEnv) Seed() {
 	for _, n := range []string{"n%ff1", "n%ff2"} {
 		e.Do(Req{Method: "POST", Path: "/upload/storage/v1/b/bk/o", Query: "uploadType=media&name=" + n, Hdr: map[string]string{"Content-Type": "text/plain"}, Body: []byte("bytes")})
 	}
+	// an object stored gzip-compressed and marked so (served decompressed to clients that do not accept gzip)
+	var zb bytes.Buffer
+	zw := gzip.NewWriter(&zb)
+	zw.Write([]byte(strings.Repeat("compressible ", 50)))
+	zw.Close()
+	gb, gct := mp(`{"name":"gz","contentEncoding":"gzip","contentType":"text/plain"}`, "text/plain", zb.Bytes(), "bnd", 0)
+	e.Do(Req{Method: "POST", Path: "/upload/storage/v1/b/bk/o", Query: "uploadType=multipart", Hdr: map[string]string{"Content-Type": gct}, Body: gb})
 	// an object that claims gzip encoding but is not gzip
 	b, ct := mp(`{"name":"notgz","contentEncoding":"gzip"}`, "text/plain", []byte("plain bytes"), "bnd", 0)
 	e.Do(Req{Method: "POST", Path: "/upload/storage/v1/b/bk/o", Query: "uploadType=multipart", Hdr: map[string]string{"Content-Type": ct}, Body: b})
@@ -577,6 +592,9 @@ func Directed() []Req {
 		{Method: "POST", Path: "/storage/v1/b/bk/o/dst/compose", Hdr: j, Body: []byte(`{"sourceObjects":[null]}`), Note: "compose with a null source"},
 		{Method: "POST", Path: "/storage/v1/b/bk/o/dst/compose", Hdr: j, Body: []byte(`{"sourceObjects":[{"name":"a"}]}`), Note: "compose without destination"},
 		{Method: "PATCH", Path: "/storage/v1/b/bk/o/a", Hdr: j, Body: []byte(`null`), Note: "patch with body null"},
+		{Method: "GET", Path: "/storage/v1/b/bk/o/gz", Query: "alt=media", Want: 200, Note: "media of a gzip object for a client that does not accept gzip"},
+		{Method: "GET", Path: "/storage/v1/b/bk/o/gz", Query: "alt=media", Hdr: map[string]string{"Accept-Encoding": "gzip"}, Want: 200, Note: "media of a gzip object for a client that accepts gzip"},
+		{Method: "GET", Path: "/bk/gz", Want: 200, Note: "public url of a gzip object, no Accept-Encoding"},
 		{Method: "GET", Path: "/storage/v1/b/bk/o/notgz", Query: "alt=media", Note: "media of a mislabelled gzip object"},
 		{Method: "GET", Path: "/download/storage/v1/b/bk/o/notgz", Query: "alt=media", Hdr: map[string]string{"Accept-Encoding": "identity"}, Note: "download of a mislabelled gzip object"},
 		{Method: "GET", Path: "/bk/notgz", Note: "public url of a mislabelled gzip object"},
